@@ -37,7 +37,12 @@ RULE = ('solution histories in polar form (magnitudes 2^k or k/4; phases k/odd t
         'lists of streams / types / stream.type) on l1 / l2 streams registered by add_applycal_sensors from raw solutions '
         '(1-2 substreams, a substream lacking a product, cal antennas a subset of the data antennas, missing spectral '
         'attributes); (O) whole VisibilityDataV4 data sets: 0-2 cal and 0-2 imager streams (0-2 targets) in telstate, '
-        'archived or not, in any order, 6 requests each; (T) 2-3 data sets opened one after the other and kept open.  '
+        'archived or not, in any order, 6 requests each; (L) whole data sets whose sdp_archived_streams lists SEVERAL streams '
+        'of each type in random order: 0-3 sdp.cal streams (some untyped / wrongly typed / unarchived / without cal input '
+        'map), 1-4 imager streams each with 1-3 self-cal targets / an empty targets dict / no targets attribute / another '
+        'stream type / unarchived (half of the layouts put an imager without targets before a productive one), unknown '
+        'names; 4 requests each (default + 3 of 14 forms); observed: applycal_products, which stream\'s solutions the l1 / '
+        'l2 product sensors hold, the l2 corrections; (T) 2-3 data sets opened one after the other and kept open.  '
         'B, G and E outputs are compared with the documented-decision spec and with the source-following model.  A case '
         'is non-trivial when it has >= 2 valid solutions (ci/B/G), >= 1 missing piece (S), a non-empty request (N), or '
         'some but not all expanded products present (P0/P1/O); distinct by its full canonical input.')
@@ -55,6 +60,8 @@ ASSUMPTIONS = [
     'katpoint.Target(name | alias, radec, ...) exposes .name and .aliases',
     'data sets have at least one data input; the self-cal substreams of one imager stream share antennas, polarisations '
     'and channel count; solutions of different substreams have different timestamps',
+    'names in sdp_archived_streams are non-empty and listed once; the targets of one imager have distinct names; '
+    'telstate.join(a, b) is a + \'_\' + b',
     'harness SensorCaches are built with their own virtual={} (the default argument of SensorCache is one shared dict); '
     'every `opened` case first drops applycal templates left in visdatav4.VIRTUAL_SENSORS by earlier data sets (no-op '
     'with the fix of finding C14-F1) - what data sets do to each other is checked by the two_sets stream',
@@ -2066,7 +2073,7 @@ def run(ctx):
     timed('select', lambda: many(ctx.scale(400, 6000), check_select, gen_select))
     timed('products', lambda: many(ctx.scale(400, 6000), check_products, gen_products))
     timed('opened', lambda: run_opened(ctx, rng, ctx.scale(40, 300), 6))
-    timed('layouts', lambda: run_layouts(ctx, rng, ctx.scale(120, 1200), 4))
+    timed('layouts', lambda: run_layouts(ctx, rng, ctx.scale(100, 1000), 4))
     timed('two_sets', lambda: many(ctx.scale(20, 150), check_two_sets, gen_two_sets))
 
     def normalise_all():
